@@ -1,4 +1,5 @@
 import BinlogVerif.Mser.Spec
+import BinlogVerif.Mser.Dest
 /-
   Line-protocol glue for the mserialize family (C04–C07): parse a type and a value from tokens,
   print tag, size, bytes, visitor callbacks (through the tag-string `visit` model with the
@@ -141,5 +142,76 @@ def cmdMser (toks : List String) : String :=
       | .error e => s!"ERR:{e.code}"
     s!"tag={tg.toHex} size={size t v} bytes={bytes.toHex} {visited} text={text} specevents={showEvs (events t v)} render={(render t v).toHex} rt={rt}"
   | _, _ => "bad-op"
+
+/-- destination tokens: the type tokens, with `R<n>` for a sequence node of fixed size n -/
+partial def parseDst : List String → Option (Dst × List String)
+  | [] => none
+  | tok :: rest =>
+    let c := tok.front
+    let body := (tok.drop 1).toString
+    if c == 'A' then
+      match body.toList with
+      | [ch] => some (.arith (UInt8.ofNat ch.toNat), rest)
+      | _ => none
+    else if c == 'Q' then do
+      let (e, rest) ← parseDst rest
+      pure (.seq none e, rest)
+    else if c == 'R' then do
+      let n ← body.toNat?
+      let (e, rest) ← parseDst rest
+      pure (.seq (some n) e, rest)
+    else if c == 'T' || c == 'V' then do
+      let n ← body.toNat?
+      let rec many : Nat → List String → List Dst → Option (List Dst × List String)
+        | 0, r, acc => some (acc.reverse, r)
+        | k + 1, r, acc => do
+          let (t, r) ← parseDst r
+          many k r (t :: acc)
+      let (ts, rest) ← many n rest []
+      pure (if c == 'T' then .tup ts else .var ts, rest)
+    else if c == 'N' then some (.null, rest)
+    else if c == 'E' then
+      match parseTy (tok :: rest) with
+      | some (.enum u n es, rest') => some (.enum u n es, rest')
+      | _ => none
+    else if c == 'S' then
+      match body.splitOn ":" with
+      | [name, k] => do
+        let name ← hexB name
+        let k ← k.toNat?
+        let rec fields : Nat → List String → List (Bytes × Dst) → Option (List (Bytes × Dst) × List String)
+          | 0, r, acc => some (acc.reverse, r)
+          | j + 1, r, acc =>
+            match r with
+            | [] => none
+            | t :: r' =>
+              if t.front == 'F' then do
+                let fname ← hexB (t.drop 1).toString
+                let (ty, r'') ← parseDst r'
+                fields j r'' ((fname, ty) :: acc)
+              else none
+        let (fs, rest) ← fields k rest []
+        pure (.struct name fs, rest)
+      | _ => none
+    else none
+
+/-- `mserinto <destination tokens> | <value tokens> | <trailing bytes hex>`: deserialise the encoding of the value, followed
+    by the trailing bytes, into the destination -/
+def cmdMserInto (toks : List String) : String :=
+  let dToks := toks.takeWhile (· != "|")
+  let r1 := (toks.dropWhile (· != "|")).drop 1
+  let vToks := r1.takeWhile (· != "|")
+  let tr := (r1.dropWhile (· != "|")).drop 1
+  match parseDst dToks, parseVal vToks, tr with
+  | some (d, []), some (v, []), [t] =>
+    match hexB (if t == "-" then "" else t) with
+    | none => "bad-op"
+    | some trailing =>
+      if !hasTy d.ty v then "ill-typed" else
+      let res := match decodeInto d (encode d.ty v ++ trailing) with
+        | .ok (v', rest) => s!"{(encode d.ty v').toHex}/{rest.length}"
+        | .error e => s!"ERR:{e.code}"
+      s!"tag={(tag d.ty).toHex} fits={if fits d v then 1 else 0} fx={res}"
+  | _, _, _ => "bad-op"
 
 end BinlogVerif.Mser.Proto
